@@ -19,16 +19,22 @@ def run(ctx, race, name="sched.jsonl"):
 
 
 def race_reports(out):
-    """[(signature, text)] for each DATA RACE block; signature = repo functions involved."""
+    """[(signature, text)] for each DATA RACE block; signature = the top-most repository
+    function of each of the two conflicting accesses."""
     reps = []
+    fn_re = re.compile(r"github\.com/google/inverting-proxy/[\w/.\-]*?\.(?:\(\*?(\w+)\)\.)?(\w+)(?:\.func\d+|\.gowrap\d+)*\(\)")
     for blk in re.findall(r"WARNING: DATA RACE.*?={18}", out, re.S):
-        fns = re.findall(r"github\.com/google/inverting-proxy/[\w/.\-]*?\.(?:\(\*?(\w+)\)\.)?(\w+)(?:\.func\d+)*\(\)", blk)
-        names = []
-        for recv, fn in fns:
-            n = (recv + "." if recv else "") + fn
-            if n not in names and not fn.startswith("verif") and not fn.startswith("TestVerif") and not fn.startswith("gowrap") and not (recv or "").startswith("verif"):
-                names.append(n)
-        reps.append(("data-race:" + "+".join(sorted(names)[:4]), blk[:3000]))
+        tops = []
+        # sections: "Read at" / "Write at" / "Previous read at" / "Previous write at" ... up to the first "Goroutine"
+        body = blk.split("\nGoroutine ")[0]
+        for sec in re.split(r"\n(?=(?:Previous )?(?:[Rr]ead|[Ww]rite|Atomic) (?:at|of))", body):
+            for recv, fn in fn_re.findall(sec):
+                if fn.startswith("verif") or fn.startswith("TestVerif") or (recv or "").startswith("verif"):
+                    continue
+                tops.append((recv + "." if recv else "") + fn)
+                break
+        names = sorted(set(tops))
+        reps.append(("data-race:" + "+".join(names), blk[:3500]))
     return reps
 
 
